@@ -13,13 +13,13 @@ TB = [
     "translator: the parent/child formulas, which variant the source has of `_rebuild_node` (merge every non-None child), of `add_node` (rebuild of `_missing_nodes` first) and of `Node.unload` (dirty flag set by the three update methods) -- the model follows all three switches and Props/C13 pins the full statements to the repaired variants (current_source_variant) --, the 0->1 clamp, byte_size = size/8+1, 4-byte blocks, the with_tables descent are re-read from the source on every run",
     "not modelled (trusted): gzip (niffler) around the filter image, zip/FS storage, JSON index file, signature JSON round trip of the leaves, primal_check::miller_rabin (= primality on u64), Python float division in SBT.parent (exact below 2^50), dict iteration order (made irrelevant by drawing save()'s random() as a function of the node position in the adapter)",
 ]
-AS = ["Bloom table sizes > 0 (with_tables(0) underflows: allocation abort, outside the property's quantifier)",
-      "index versions 1 and 2 are not exercised (no missing-node / min_n_below notion; their loader needs uncompressed node files)",
+AS = ["Bloom table sizes > 0 (with_tables(0) underflows: allocation abort, outside the property's quantifier; candidate patch C13.6)",
+      "index versions 1 and 2 are exercised in their legacy layout (relative file names, no factory/storage record, no metadata, uncompressed root filter) with sparseness 0 and table requests that survive the loader's rounding of the table size to the hundred",
       "d >= 2"]
-RULE = ("sbt stream: 1..60 insertions (thorough: up to 300) of scaled=1 sketches with 0..30 hashes (10% empty, 15% single-hash) from a "
+RULE = ("sbt stream: 1..60 insertions (thorough: up to 300) of sketches of scaled 1 (half the cases), 2, 4, 100 or 1000 with 0..30 hashes (10% empty, 15% single-hash) from a "
         "per-case pool incl. 0, 2^63, 2^64-1; d in 2..10; Bloom table request 3 bits..1e5, 1..4 tables; dump after insertions; then "
-        "save(sparseness in {0,.3,.5,.9,1}) + load (index versions 3..6, cache sizes None/1/2/3/5/50), repairs (_rebuild_node, "
-        "_fill_internal, _fill_min_n_below), searches (Jaccard/containment, thresholds 0..1) compared with a linear scan, and insertions "
+        "save(sparseness in {0,.3,.5,.9,1}) + load (index versions 1..6, cache sizes None/1/2/3/5/50), repairs (_rebuild_node, "
+        "_fill_internal, _fill_min_n_below), searches (Jaccard/containment/max containment, thresholds 0..1, query scaled equal, finer or coarser than the tree) compared with a linear scan, select(), and insertions "
         "after the load; non-trivial = >= 3 accepted insertions and >= 1 successful dump; distinct = distinct op lists. "
         "nodegraph sub-stream: count/get/matches/update/round trips on filters of requested size 1..1e5, 0..5 tables, hand-made images with "
         "sizes that are multiples of 32 and bits beyond the size")
@@ -80,7 +80,7 @@ def extra(chk, pkg):
 
 if __name__ == "__main__":
     thorough = "thorough" in sys.argv or os.environ.get("VERIF_TIER") == "thorough"
-    fl = ["insert", "small", "sparse", "reinsert", "big", "sparse", "insert", "small"]
+    fl = ["insert", "small", "sparse", "reinsert", "big", "sparse", "insert", "legacy", "reinsert", "small"]
     if thorough:
-        fl = ["insertT", "small", "sparseT", "reinsert", "big", "sparse", "insert", "small"]
+        fl = ["insertT", "small", "sparseT", "reinsert", "big", "sparse", "insert", "legacy", "reinsert", "small"]
     streamlib.run_property("C13", sbt, fl, sbt.oracle, 900, 20000, TB, AS, RULE, nontrivial=sbt.nontrivial, extra=extra)
